@@ -51,3 +51,122 @@ Theorem C12_source_fetch_static_is_model : forall evs a b rv,
   g_mem_fetch_static (sl_build evs) a b rv = fetch_static (sl_build evs) a b rv.
 Proof. exact src_stored_is_model_on_built_stores. Qed.
 Print Assumptions C12_source_fetch_static_is_model.
+
+(* ---- tie C, third extension (Proofs/GenEq_mem.v): the write paths of MemoryTimeline, its fetch, and the
+   dispatch of MutableTimeline, as translated from the source text.  A stored RecurringPattern, its id and its
+   exdates are abstract in the generated definitions; here they are the model's (Model/MemSrc.v), and
+   self._recurring_patterns is [ents (m_pats s)] ---- *)
+From CG Require Import Model.LoopMem Model.MemSrc Proofs.Stored Proofs.GenEq_mem.
+
+(* MemoryTimeline.fetch (pattern streams in storage order + the static stream, heapq.merge, both directions)
+   on every state the refinement relation covers *)
+Theorem C12_source_fetch_is_model : forall m s a b rv, R m s ->
+  g_mem_fetch m_pfetch (m_static m) (ents (m_pats m)) (Some a) (Some b) rv = mfetch m a b rv.
+Proof. intros m s a b rv H. apply g_mem_fetch_eq, sorted_key_sorted_start, (R_sorted _ _ H). Qed.
+Print Assumptions C12_source_fetch_is_model.
+
+(* _remove_interval / _remove_series are the model's remove / remove_series, state and WriteResult: no hypothesis *)
+Example C12_source_remove_is_model : forall s ev,
+  g_mem_remove_interval m_rid m_truthy N.eqb m_pfetch m_exdates m_exs_add m_set_exdates (m_static s) (ents (m_pats s)) ev =
+  let r := mremove s ev in (m_static (fst r), ents (m_pats (fst r)), snd r)
+  := g_mem_remove_interval_eq.
+Print Assumptions C12_source_remove_is_model.
+
+Example C12_source_remove_series_is_model : forall s ev,
+  g_mem_remove_series m_rid m_truthy N.eqb m_pfetch m_exdates m_exs_add m_set_exdates (m_static s) (ents (m_pats s)) ev =
+  let r := mremove_series s ev in (m_static (fst r), ents (m_pats (fst r)), snd r)
+  := g_mem_remove_series_eq.
+Print Assumptions C12_source_remove_series_is_model.
+
+(* _remove_recurring_instance is the model's remove_instance for an event that names a series *)
+Example C12_source_remove_instance_is_model : forall st0 pats sq ev, series_of ev <> 0%N ->
+  g_mem_remove_recurring_instance m_rid m_truthy N.eqb m_pfetch m_exdates m_exs_add m_set_exdates (ents pats) ev =
+  let r := remove_instance (mkM st0 pats sq) ev in (ents (m_pats (fst r)), [wr_rm ev (snd r)])
+  := g_mem_remove_recurring_instance_eq.
+Print Assumptions C12_source_remove_instance_is_model.
+
+(* so the headline facts hold of the code text: the translated remove() succeeds on an occurrence exactly when
+   one (not yet removed) starts there — C12_instance_test on the source *)
+Theorem C12_source_instance_test : forall p ev t,
+  series_of ev = p_ser p -> p_ser p <> 0%N -> st ev = Some t -> 0 < p_period p -> 0 < p_dur p ->
+  map wr_ok (snd (g_mem_remove_recurring_instance m_rid m_truthy N.eqb m_pfetch m_exdates m_exs_add m_set_exdates
+                                                  (ents [p]) ev)) = [is_occurrence (abs_pat p) t].
+Proof.
+  intros p ev t Hs Hn Ht Hp Hd.
+  rewrite (g_mem_remove_recurring_instance_eq [] [p] 0%N ev) by (rewrite Hs; exact Hn).
+  cbv zeta. unfold remove_instance. cbn [m_pats m_static m_seq find_pat]. rewrite Hs, N.eqb_refl, Ht.
+  rewrite (instance_test p t Hp Hd). destruct (is_occurrence (abs_pat p) t); reflexivity.
+Qed.
+Print Assumptions C12_source_instance_test.
+
+(* the batch removals and the dispatch of remove / remove_series on the kind of argument: a collection is
+   removed item by item, exactly as a run of single removals of the model *)
+Example C12_source_remove_dispatch : forall s x,
+  g_mt_remove (uncurry3 (g_mem_remove_interval m_rid m_truthy N.eqb m_pfetch m_exdates m_exs_add m_set_exdates))
+              (uncurry3l (g_mem_remove_many m_rid m_truthy N.eqb m_pfetch m_exdates m_exs_add m_set_exdates))
+              (view2 s) x =
+  let r := mremove_any s x in (view2 (fst r), snd r)
+  := g_mt_remove_mem_eq.
+Print Assumptions C12_source_remove_dispatch.
+
+Example C12_source_remove_series_dispatch : forall s x,
+  g_mt_remove_series (uncurry3 (g_mem_remove_series m_rid m_truthy N.eqb m_pfetch m_exdates m_exs_add m_set_exdates))
+              (uncurry3l (g_mem_remove_many_series m_rid m_truthy N.eqb m_pfetch m_exdates m_exs_add m_set_exdates))
+              (view2 s) x =
+  let r := mremove_series_any s x in (view2 (fst r), snd r)
+  := g_mt_remove_series_mem_eq.
+Print Assumptions C12_source_remove_series_dispatch.
+
+Theorem C12_source_remove_many_is_a_run : forall s evs,
+  fst (mremove_many s evs) = fold_left (fun m o => fst (mstep m o)) (map MRemove evs) s /\
+  map wr_ok (snd (mremove_many s evs)) = concat (map fst (mrun s (map MRemove evs))).
+Proof. exact mremove_many_run. Qed.
+Print Assumptions C12_source_remove_many_is_a_run.
+
+(* add(): the dispatch, _add_interval (the stored event goes into the sorted store: add(Interval) of the model),
+   _add_recurring (a new series under the next id: add(RecurringPattern) of the model) *)
+Example C12_source_add_dispatch :
+  forall (ST PAT K V : Type) (eqb : K -> K -> bool) vars_of
+         (addi : ST -> ivl -> list (K * option V) -> ST * list wres)
+         (addr : ST -> PAT -> list (K * option V) -> ST * list wres)
+         (addm : ST -> list ivl -> list (K * option V) -> ST * list wres) st0 item kw,
+  g_mt_add eqb vars_of addi addr addm st0 item kw = madd_dispatch eqb vars_of addi addr addm st0 item kw
+  := @g_mt_add_eq.
+Print Assumptions C12_source_add_dispatch.
+
+Example C12_source_add_interval_is_model :
+  forall (K V : Type) (eqb : K -> K -> bool) rf (container : list (K * option V)) s i md,
+  let ev := stored_event eqb rf container i md in
+  let r := mstep s (MAdd ev) in
+  g_mem_add_interval eqb rf container (m_static s) i md = (m_static (fst r), [mkWR (flag_of r) (Some ev) None]) /\
+  m_pats (fst r) = m_pats s /\ m_seq (fst r) = m_seq s
+  := @g_mem_add_interval_model.
+Print Assumptions C12_source_add_interval_is_model.
+
+(* ... and every field of the stored event's metadata is the meta_merge the C12 checks compare with the code *)
+Example C12_source_metadata_merge : forall (item_fields kw container : list (N * option N)) k,
+  NoDup (map fst kw) -> NoDup (map fst container) ->
+  dict_get_opt N.eqb k (fill_defaults N.eqb container (dict_update N.eqb item_fields kw)) =
+  meta_merge (dict_get_opt N.eqb k item_fields)
+             (if dict_has N.eqb k kw then Some (dict_get_opt N.eqb k kw) else None)
+             (if dict_has N.eqb k container then Some (dict_get_opt N.eqb k container) else None)
+  := add_metadata_is_meta_merge.
+Print Assumptions C12_source_metadata_merge.
+
+Example C12_source_add_recurring_is_model :
+  forall krid pmeta chas cann (container kw : list (N * option N)) s period phase dur tag,
+  let p0 := mkP 0 period phase dur [] tag in
+  chas p0 = true -> existsb (N.eqb krid) (cann p0) = true ->
+  let r := mstep s (MAddPat period phase dur tag) in
+  g_mem_add_recurring N.eqb m_make_id pmeta chas cann krid (fun id : N => id) (fun _ => tt) (fun _ => tt)
+                      (m_make_pattern krid) container (ents (m_pats s)) (m_seq s) p0 kw =
+  (ents (m_pats (fst r)), m_seq (fst r), [wr_noev (flag_of r)]) /\ m_static (fst r) = m_static s
+  := g_mem_add_recurring_model.
+Print Assumptions C12_source_add_recurring_is_model.
+
+(* the SortedList key of the source is the key the model's store is sorted by *)
+Example C12_source_sort_key : forall a b,
+  key_le a b = pair_le (g_interval_sort_key a) (g_interval_sort_key b) /\
+  key_lt a b = pair_lt (g_interval_sort_key a) (g_interval_sort_key b)
+  := g_interval_sort_key_orders.
+Print Assumptions C12_source_sort_key.
